@@ -64,6 +64,8 @@ structure Obs where
   votes : List (Nat × Nat × Pid × Chain) := []
   /-- values for which a justification (any phase) was delivered -/
   justVals : List Chain := []
+  /-- values for which a PREPARE-quorum justification was delivered (the evidence that allows a sway) -/
+  prepJustVals : List (Nat × Chain) := []
   /-- delivered CONVERGE values per round with rank -/
   conv : List (Nat × Chain × Nat) := []
   /-- own broadcasts: (round, phase, value) -/
@@ -195,6 +197,9 @@ def Obs.recordVote (o : Obs) (mg : Msg) : Obs :=
   { o with
     votes := if already then o.votes else o.votes ++ [(phN, mg.round, mg.sender, mg.value)]
     justVals := match mg.just with | some j => if o.justVals.contains j.value then o.justVals else o.justVals ++ [j.value] | none => o.justVals
+    prepJustVals := match mg.just with
+      | some j => if j.phase == .prepare && !o.prepJustVals.contains (j.round, j.value) then o.prepJustVals ++ [(j.round, j.value)] else o.prepJustVals
+      | none => o.prepJustVals
     conv := if phN == 2 && !(o.conv.any (fun e => e.1 == mg.round && e.2.1 == mg.value && e.2.2 ≤ mg.rank)) && !already
             then o.conv ++ [(mg.round, mg.value, mg.rank)] else o.conv }
 
@@ -206,13 +211,19 @@ def perms : List Pid → List (List Pid)
 /-- Go map order at the end of COMMIT (`ListAllValues`, first non-bottom value): the model's association list
 is in insertion order; every rotation that puts another non-bottom committed value first is an equally
 admissible iteration order of the Go map. -/
-def mapOrderVariants (s : State) : List State :=
+def mapOrderVariants (s : State) (incoming : Option Msg := none) : List State :=
   let rs := s.getRound s.round
-  let sup := rs.committed.support
+  -- a COMMIT for a value not tallied yet lands somewhere in the Go map: give it a (power-less) slot first
+  let sup0 := rs.committed.support
+  let sup : List Support := match incoming with
+    | some mg =>
+      if mg.phase == Phase.commit && mg.round == s.round && !mg.value.isEmpty && !(sup0.any (·.chain == mg.value))
+      then sup0 ++ [({ chain := mg.value, power := 0, signers := [], strong := false } : Support)] else sup0
+    | none => sup0
   (List.range sup.length).filterMap (fun i =>
     match sup[i]? with
     | some sp =>
-      if i == 0 || sp.chain.isEmpty then none
+      if (i == 0 && sup.length == sup0.length) || sp.chain.isEmpty then none
       else some (s.setRound s.round { rs with committed := { rs.committed with support := sp :: (sup.take i ++ sup.drop (i + 1)) } })
     | none => none)
 
@@ -292,7 +303,7 @@ def processOp (st : St) (pid : Pid) (kind : String) (now : Int) (detail effsS pr
         else if m.started then
           -- Go map order among several non-bottom COMMIT values (only reachable with ≥ 1/3 of the power
           -- equivocating, i.e. in script mode): accept the implementation's choice if some order yields it
-          match (mapOrderVariants m.inst).find? (fun v => agrees (pstep { m with inst := v } op)) with
+          match (mapOrderVariants m.inst msg?).find? (fun v => agrees (pstep { m with inst := v } op)) with
           | some v => pstep { m with inst := v } op
           | none => r0
         else if (sendersOf m.queue).length ≤ 1 then r0
@@ -377,6 +388,32 @@ def processOp (st : St) (pid : Pid) (kind : String) (now : Int) (detail effsS pr
             (st', .ok tag)
   | _, _ => (st, .bad s!"unknown node {pid}")
 
+/-- Diagnosis of a run that did not decide after stabilisation: is it the protocol-level stall recorded as a
+known finding? Some honest member `m` is needed for every strong quorum of honest members (the honest power
+without it is below two thirds), the other honest members stand on a proposal `V` that `m` can never adopt — `V` is
+not a prefix of `m`'s input and `m` was never handed evidence of a PREPARE quorum for it (neither the votes nor a
+justification) — and `m` stands on something else. Every round then ends in COMMIT for bottom, and only the
+CONVERGE lottery can resolve it, which `m` wins with probability ≈ its share of the power. -/
+def stallDiagnosis (st : St) (honest : List (Pid × Obs)) : Option String :=
+  let lastProp := fun (o : Obs) => ((o.own.filter (fun e => e.2.1 == 3)).getLast?).map (·.2.2)
+  let lastRound := fun (o : Obs) => (((o.own.filter (fun e => e.2.1 == 3)).getLast?).map (·.1)).getD 0
+  let hp := (honest.map (·.2.power)).foldl (· + ·) 0
+  honest.findSome? (fun (e : Pid × Obs) =>
+    let mo := e.2
+    let recent := fun (r : Nat) => decide (r + 3 ≥ lastRound mo)
+    if strongOf st.tbl (hp - mo.power) then none else
+    honest.findSome? (fun (f : Pid × Obs) =>
+      match lastProp f.2 with
+      | some v =>
+        -- evidence of a PREPARE quorum for `v` in the last rounds would have let `m` sway
+        let seenQuorum := mo.votes.any (fun x => x.1 == 3 && x.2.2.2 == v && recent x.2.1 && strongOf st.tbl (mo.supportFor st.tbl 3 x.2.1 v))
+        let seenJust := mo.prepJustVals.any (fun x => x.2 == v && recent x.1)
+        if f.1 != e.1 && lastProp mo != some v && !v.isEmpty && !isPrefixOf v mo.input && !seenJust && !seenQuorum
+            && lastRound mo ≥ 3 then
+          some s!"member={e.1} power={mo.power} input={chainStr mo.input} stands on {chainStr ((lastProp mo).getD [])}; {f.1} stands on {chainStr v}; honest power {hp} of {st.tbl.total}"
+        else none
+      | none => none))
+
 /-- cross-node oracles at the end of a run -/
 def endRunOne (st : St) (gst delta : Int) (now : Int) (capped : Bool) (gstRound decRound : Int)
     (honest : List (Pid × Obs)) : Verdict :=
@@ -406,7 +443,9 @@ def endRunOne (st : St) (gst delta : Int) (now : Int) (capped : Bool) (gstRound 
         -- C06 liveness (live / sync modes only): all honest decided; measured by the harness' deadline
         let live := st.mode == "sync" || st.mode == "live"
         if live && !capped && decs.length < honest.length then
-          .oracle s!"C06-undecided-after-stabilisation run={st.runNo} mode={st.mode} decided={decs.length}/{honest.length} gst={gst} now={now} delta={delta}"
+          match stallDiagnosis st honest with
+          | some d => .oracle s!"C06-stalled-quorum-needs-member-with-incompatible-input run={st.runNo} mode={st.mode} decided={decs.length}/{honest.length} {d}"
+          | none => .oracle s!"C06-undecided-after-stabilisation run={st.runNo} mode={st.mode} decided={decs.length}/{honest.length} gst={gst} now={now} delta={delta}"
         else if live && !capped && decRound > max gstRound 0 + 40 then
           .oracle s!"C06-round-bound-exceeded run={st.runNo} mode={st.mode} decided in round {decRound}, stabilised in round {gstRound}"
         else if st.mode == "sync" && !capped &&
@@ -455,7 +494,7 @@ def processMulti (st : St) (vid : Pid) (kind : String) (now : Int) (detail effsS
     let variants : List (MState × MOp) :=
       cands.map (fun c => (ms, c)) ++
       (match ms.active with
-       | some p => (mapOrderVariants p.inst).flatMap (fun v => cands.map (fun c => ({ ms with active := some { p with inst := v } }, c)))
+       | some p => (mapOrderVariants p.inst ((parseMsg? detail).map (·.1))).flatMap (fun v => cands.map (fun c => ({ ms with active := some { p with inst := v } }, c)))
        | none => [])
     let pick := match variants.find? (fun v => agrees v.1 (mpstep v.1 v.2)) with
       | some v => some v
